@@ -698,24 +698,22 @@ theorem streamOut0_eq (iw : Nat) (h : iw ≤ 2147483647) : streamOut0 iw = (iw :
 theorem endOnHeaders_all (hasBody : Bool) (t : Option Nat) : endOnHeaders Fixes.all hasBody t = !hasBody := by
   cases hasBody <;> cases t <;> rfl
 
-theorem sim_doOpen {st : State} {m : Send} (h : SInv (view st) m) (r : Req)
-    (hlen : 0 < r.hdrLen) (hslot : liveCount st.streams < st.maxConcurrent) :
-    ∃ m', Send.run m ((doOpen st r).2.map Event.c) = .ok m' ∧
-      SInv (view (doOpen st r).1) m' := by
-  have hfixes : st.cfg.fixes = Fixes.all := by have := h.fixes; simpa only [view] using this
-  have hfix : st.cfg.fixes.hdrPrio = true := by rw [hfixes]; rfl
-  have hmf : m.maxFrame = st.maxFrameSize := h.maxFrame
+/-- the monitor's books after a new stream's header block -/
+def openedMon (m : Send) (id : Nat) (es : Bool) : Send :=
+  { m with lastId := id, hdrOpen := none,
+           streams := m.streams ++ [{ id := id, win := m.initWin, cEnd := es, cRst := false, pEnd := false, pRst := false }] }
+
+theorem doOpen_frames {st : State} (hfixes : st.cfg.fixes = Fixes.all) (r : Req) :
+    (doOpen st r).2 = headerFrames (r.hdrLen + 1) st.nextStreamID r.hdrLen (!(!(r.known && r.bodyLen == 0)))
+      st.maxFrameSize st.cfg.hdrPrio true true := by
+  simp only [doOpen, hfixes, endOnHeaders_all]
+  rfl
+
+/-- the invariant after `doOpen`, whatever admitted the stream -/
+theorem sinv_doOpen {st : State} {m : Send} (h : SInv (view st) m) (r : Req) :
+    SInv (view (doOpen st r).1) (openedMon m st.nextStreamID (!(!(r.known && r.bodyLen == 0)))) := by
+  simp only [doOpen, openedMon]
   have hlast : st.nextStreamID > m.lastId := h.lastId
-  have hconc : ∀ k, m.maxConc = some k → openCount m.streams + 1 ≤ k := by
-    intro k hk
-    have h1 := h.conc k hk
-    have h2 := rels_open_le_live h.rel
-    simp only [view] at h1 h2
-    omega
-  have hrun := headers_run h.hdr st.nextStreamID r.hdrLen (!(!(r.known && r.bodyLen == 0))) st.cfg.hdrPrio st.maxFrameSize
-    hmf h.frameLo hlen hlast h.odd hconc
-  simp only [doOpen, hfix, hfixes, endOnHeaders_all]
-  refine ⟨_, hrun, ?_⟩
   have hiw := h.initWin
   have hih := h.initHi
   have hodd := h.odd
@@ -776,6 +774,25 @@ theorem sim_doOpen {st : State} {m : Send} (h : SInv (view st) m) (r : Req)
       omega
     · simp only [view]; omega
 
+
+
+theorem sim_doOpen {st : State} {m : Send} (h : SInv (view st) m) (r : Req)
+    (hlen : 0 < r.hdrLen) (hslot : liveCount st.streams < st.maxConcurrent) :
+    ∃ m', Send.run m ((doOpen st r).2.map Event.c) = .ok m' ∧
+      SInv (view (doOpen st r).1) m' := by
+  have hfixes : st.cfg.fixes = Fixes.all := by have := h.fixes; simpa only [view] using this
+  have hmf : m.maxFrame = st.maxFrameSize := h.maxFrame
+  have hlast : st.nextStreamID > m.lastId := h.lastId
+  have hconc : ∀ k, m.maxConc = some k → openCount m.streams + 1 ≤ k := by
+    intro k hk
+    have h1 := h.conc k hk
+    have h2 := rels_open_le_live h.rel
+    simp only [view] at h1 h2
+    omega
+  have hrun := headers_run h.hdr st.nextStreamID r.hdrLen (!(!(r.known && r.bodyLen == 0))) st.cfg.hdrPrio st.maxFrameSize
+    hmf h.frameLo hlen hlast h.odd hconc
+  rw [doOpen_frames hfixes]
+  exact ⟨_, hrun, sinv_doOpen h r⟩
 
 theorem sim_openStream {st : State} {m : Send} (h : SInv (view st) m) (r : Req)
     (hlen : 0 < r.hdrLen) :
